@@ -59,11 +59,14 @@ def main():
         rec["tests_passed"] = int(m.group(1)) if m else 0
         rec["tests_failed"] = int(re.search(r"(\d+) failed", out).group(1)) if re.search(r"(\d+) failed", out) else 0
         # scratch copy of /verif
-        if not os.path.isdir(a.verif_copy):
-            sh(["rsync", "-a", "--exclude", ".git", "--exclude", "replays", VERIF + "/", a.verif_copy + "/"])
-        else:
-            sh(["rsync", "-a", "--exclude", ".git", "--exclude", "replays", "--exclude", "lean/.lake", "--exclude", "lean/DS/Gen", "--exclude", "work",
-                "--exclude", "evidence", VERIF + "/", a.verif_copy + "/"])
+        # scratch copy of /verif as committed (HEAD), so that work in progress in /verif does not disturb the evaluation;
+        # the Lean build output is taken over once
+        fresh = not os.path.isdir(a.verif_copy)
+        os.makedirs(a.verif_copy, exist_ok=True)
+        sh("git -C %s archive HEAD | tar -x -C %s" % (VERIF, a.verif_copy))
+        if fresh:
+            sh(["rsync", "-a", VERIF + "/lean/.lake", a.verif_copy + "/lean/"])
+            sh(["rsync", "-a", VERIF + "/lean/DS/Gen", a.verif_copy + "/lean/DS/"])
         checks = (a.checks or a.pid).split(",")
         rec["checks"] = {}
         for c in checks:
